@@ -30,11 +30,27 @@ def _split_targs(sx):
     return out
 
 
+DYN_BUFREAD = "alloc::boxed::Box<dyn std::io::BufRead>"
+
+
+def _dyn_bufread_closed(P):
+    """every `Box<dyn BufRead>` of the program is a boxed BufReader<File> (unsizing coercions enumerated): a reader behind the trait
+    object is still the std buffered file reader, whose `lines()` is the trusted line source"""
+    srcs = set()
+    for f in P.fns.values():
+        for _, st in f.stmts():
+            if st["k"] == "assign" and st["rv"]["k"] == "cast" and "Unsize" in str(st["rv"].get("ck")) and st["rv"].get("to") == DYN_BUFREAD:
+                srcs.add(st["rv"].get("from"))
+    return bool(srcs) and srcs <= {"alloc::boxed::Box<" + BUFREADER_FILE + ">", DYN_BUFREAD}
+
+
 def _line_source_problem(P, ity):
     """None if the iterator type is io::Lines<BufReader<File>> under only Enumerate and Map layers whose closure passes the line through"""
     t = ity
     for _ in range(8):
         if t == "std::io::Lines<" + BUFREADER_FILE + ">":
+            return None
+        if t == "std::io::Lines<" + DYN_BUFREAD + ">" and _dyn_bufread_closed(P):
             return None
         m = LAYER.match(t)
         if not m:
@@ -173,7 +189,8 @@ def run(R):
     if len(outer) == 1 and "drain::Drain" in short(outer[0].next.name) and part_drain:
         R.violation("C12.iter", "FileExecutor::execute|file-loop", "the loop over the input files drains only a part of the reader list",
                     [part_drain[0].loc()])
-    elif len(outer) == 1 and (outer[0].next.func.get("res_targs") or [""])[0] in (BUFREADER_FILE, "std::fs::File"):
+    elif len(outer) == 1 and ((outer[0].next.func.get("res_targs") or [""])[0] in (BUFREADER_FILE, "std::fs::File") or
+                              ((outer[0].next.func.get("res_targs") or [""])[0] == DYN_BUFREAD and _dyn_bufread_closed(P))):
         R.ok("C12.iter", "FileExecutor::execute|file-loop", "for reader in readers.into_iter()", outer[0].next.loc())
     elif not outer and len(enum_outer) == 1 and re.match(r"^alloc::vec::into_iter::IntoIter<(%s|std::fs::File)(, [^<>]*)?>$" % re.escape(BUFREADER_FILE),
                                                          ((enum_outer[0].next.func.get("res_targs") or enum_outer[0].next.targs) or [""])[0]):
